@@ -172,7 +172,9 @@ def check(prog: Program, tier: str) -> Result:
             "derived from all identifiers of the tree (ids of a walk over ast.Name, tracing.get_defined_names / "
             "get_imported_names), or the identifier is drawn from a repository generator whose every yield is under such "
             "a test. (R19.2) names produced by style.rename_* pass a blacklist that includes keywords, builtins, imported "
-            "and defined names. (R19.3) all rewrites of one renamed binding carry one transaction id. Not decided: "
+            "and defined names. (R19.3) all rewrites of one renamed binding carry one transaction id, and the scheduler applies a transaction "
+            "wholly or not at all (clauses R10.1/R10.3/R10.6 of the C10 check, adopted). (R19.4) use-site discovery sees shadowing by every "
+            "kind of parameter. Not decided: "
             "completeness of use-site discovery, validity of the produced identifier."),
         rule_text="instances = constructions of named nodes reaching the output, literal binders of replace templates, blacklist components, rename transactions; non-trivial = synthesised identifiers",
     )
@@ -244,7 +246,7 @@ def check(prog: Program, tier: str) -> Result:
     from . import c10 as _c10
     res.adopt(_c10.check(prog, tier), {"R10.1", "R10.3", "R10.6"}, "R19.3",
               "a rename is consistent only if its transaction is applied as a whole or not at all")
-    res.floors.update({"R19.1": 8, "R19.2": 4, "R19.3": 4, "R19.4": 1})
+    res.floors.update({"R19.1": 8, "R19.2": 4, "R19.3": 2, "R19.4": 1})
     res.analysed.update({"named_node_constructions_reaching_output": n_ctor, "guarded_name_generators": sorted(f"{a}.{b}" for a, b in gens)})
     return res
 
@@ -544,6 +546,11 @@ def _within(n, container) -> bool:
 from ..selftest import Variant  # noqa: E402
 
 VARIANTS: List[Variant] = [
+    Variant("shadowing-test-sees-plain-parameters-only", "FIRE", "fixes",
+            "        if any(core.walk(funcdef.args, ast.arg(arg=name))):", "        if any(core.filter_nodes(funcdef.args.args, ast.arg(arg=name))):", "R19.4"),
+    Variant("shadowing-test-lists-all-parameter-kinds", "SILENT", "fixes",
+            "        if any(core.walk(funcdef.args, ast.arg(arg=name))):",
+            "        if any(a is not None and a.arg == name for a in funcdef.args.posonlyargs + funcdef.args.args + funcdef.args.kwonlyargs + [funcdef.args.vararg, funcdef.args.kwarg]):"),
     Variant("loop-variable-generator-unchecked", "FIRE", "fixes", "            if new_name and new_name not in used_names:\n                yield new_name", "            if new_name:\n                yield new_name", "R19.1"),
     Variant("keys-to-items-collision-test-removed", "FIRE", "fixes",
             "        if any(core.walk(root, (ast.Name(id=node_target_name), ast.arg(arg=node_target_name)))):\n            continue  # The new loop variable would shadow an existing variable\n        yield (\n            node.generators[0].iter,",
@@ -560,11 +567,11 @@ VARIANTS: List[Variant] = [
 
 META = {
     "design_ref": "DESIGN.md section 3, C19",
-    "technique": "path-condition freshness facts at every construction of a named node that reaches the output; template binder extraction; blacklist component check; transaction def-use",
+    "technique": "path-condition freshness facts at every construction of a named node that reaches the output; template binder extraction; blacklist component check; transaction def-use; parameter-kind coverage of the use-site collector; adopted scheduler clauses (C10)",
     "level_text": ("Decides on the current source that every synthesised identifier that a rewrite binds is tested against "
                    "the identifiers of the tree on all paths (or drawn from a guarded name generator), that convention "
                    "renaming applies a blacklist with keywords, builtins, imported and defined names, and that one renamed "
-                   "binding is rewritten under one transaction. Unguarded binders of the pinned tree are known findings. It "
+                   "binding is rewritten under one transaction. The unguarded binders of the pinned tree were repaired (fix commits). It "
                    "does not decide completeness of use-site discovery nor identifier validity."),
     "level_note": "Trusted: CPython ast; the copy/synthesised classification of identifier expressions; sa/pathcond.py.",
 }
